@@ -453,6 +453,14 @@ pub fn g_mint(ctx: &mut Ctx) -> Mint {
         }
         m.insert(&pol, &ma);
     }
+    // Mint is a list of (policy, assets) entries in memory and `insert` appends: the same policy may
+    // be entered again with other assets (one entry per script use); that too is a value of the type
+    if ctx.flag() {
+        let mut ma = MintAssets::new();
+        ma.insert(&asset_name_i(7), &Int::new_i32(-4)).unwrap();
+        m.insert(&ScriptHash::from_bytes(h28(100)).unwrap(), &ma);
+        ctx.hit("Mint: one policy in two entries");
+    }
     v(ctx, m)
 }
 
